@@ -322,13 +322,24 @@ Theorem C18_e2e_never_undefined : forall nodes,
 Proof. exact e2e_of_nodes_total. Qed.
 Print Assumptions C18_e2e_never_undefined.
 
-(* the channels of the topic view start from the first node's decoded block: the same, provided
-   that block holds no null entry; and from the second node's on when the first has none *)
-Theorem C18_e2e_topic_channel : forall c ps nodes,
-  e2e_of_topic_channel (Some (mkE2e c (map Some ps)) :: nodes) =
-  Ok (Some (mkEA (count_from c nodes) (map Some (merge_all (map (dec1 c) ps) (node_values nodes))))).
+(* the channels of the topic view start from the first node's decoded block.  The decoder
+   drops null entries (dc56edf), so for ANY blocks -- null entries anywhere, on any node -- the
+   merge never meets a nil map: no panic, no division by zero *)
+Theorem C18_e2e_topic_channel : forall e nodes,
+  e2e_of_topic_channel (Some e :: nodes) =
+  Ok (Some (mkEA (count_from (e_count e) nodes)
+                 (map Some (merge_all (map (decode_pct (e_count e)) (nonnil (e_pcts e))) (node_values nodes))))).
 Proof. exact e2e_of_topic_channel_total. Qed.
 Print Assumptions C18_e2e_topic_channel.
+
+Theorem C18_e2e_decoded_no_nil_map : forall e, existsb is_nil (ea_pcts (e2e_decode e)) = false.
+Proof. exact decode_no_nil_map. Qed.
+Print Assumptions C18_e2e_decoded_no_nil_map.
+
+Theorem C18_e2e_views_never_panic : forall nodes,
+  (exists v, e2e_of_nodes nodes = Ok v) /\ (exists v, e2e_of_topic_channel nodes = Ok v).
+Proof. exact e2e_views_never_panic. Qed.
+Print Assumptions C18_e2e_views_never_panic.
 
 Theorem C18_e2e_topic_channel_first_nil : forall nodes,
   e2e_of_topic_channel (None :: nodes) = e2e_of_nodes nodes.
@@ -388,13 +399,15 @@ Print Assumptions C18_e2e_order_independent.
 (* the statements of E2eProcessingLatencyAggregate.Add and of UnmarshalJSON's loop the model
    was written against, regenerated from the repository on every run *)
 Theorem C18_quantile_source_shapes :
-  quantile_add_body = quantile_add_expected /\ quantile_unmarshal_loop = quantile_unmarshal_expected.
+  quantile_add_body = quantile_add_expected /\ quantile_unmarshal_loop = quantile_unmarshal_expected /\
+  quantile_unmarshal_lists = quantile_lists_expected.
 Proof. exact quantile_shapes_current. Qed.
 Print Assumptions C18_quantile_source_shapes.
 
 (* non-vacuity: idle nodes (count 0 everywhere) give count 0 / average 0; two busy nodes with
    the same values give their common value and the sum of the counts; the division the zero
-   test protects is 0 / 0; a null entry in the first node's block of a topic-view channel *)
+   test protects is 0 / 0; null entries (the F19 witnesses) are dropped and merge to a finite
+   aggregate, only a hand-built nil map makes Add panic *)
 Example C18_witness_e2e_idle :
   let idle := Some (mkE2e 0 [Some (mkPct (99 # 100) 0); Some (mkPct (1 # 2) 0)]) in
   let busy := Some (mkE2e 3 [Some (mkPct (99 # 100) 1200); Some (mkPct (1 # 2) 400)]) in
@@ -411,7 +424,10 @@ Example C18_witness_e2e_division : fdiv ((0 - 0) * 0) (0 + 0) = Recovered.
 Proof. exact e2e_witness_division. Qed.
 
 Example C18_witness_e2e_null_entry :
-  (e2e_of_topic_channel [Some (mkE2e 1 [None]); Some (mkE2e 1 [None])],
-   match e2e_of_nodes [Some (mkE2e 1 [None]); Some (mkE2e 1 [None])] with Ok (Some _) => true | _ => false end)
-  = (Recovered, true).
+  (match e2e_of_topic_channel [Some (mkE2e 1 [None]); Some (mkE2e 1 [None])] with
+   | Ok (Some e) => Some (ea_count e, length (ea_pcts e)) | _ => None end,
+   match e2e_of_topic_channel [Some (mkE2e 1 [None]); Some (mkE2e 2 [Some (mkPct 0 7)])] with
+   | Ok (Some e) => Some (ea_count e, length (ea_pcts e)) | _ => None end,
+   e2e_of_receiver (Some (with_nil_maps 1 (e2e_decode (mkE2e 1 [None])))) [Some (mkE2e 2 [Some (mkPct 0 7)])])
+  = (Some (2%Z, 0%nat), Some (3%Z, 1%nat), Recovered).
 Proof. exact e2e_witness_null_entry. Qed.
